@@ -536,7 +536,7 @@ _ADDED3 = {
     "C16": "TEMPLATESIZE, RAWLINE, SCORERBUILD and KIND over the dual connector and ConnectorWrapper (the cost obtained through the raw or dual connector; the same numbers of ids). BIGRAMROW every-row: rows of bigram_weight_indices() fetched by key are not fetched by the keys of the id -> text map (slot 0 has no text).",
     "C08": "MATRIXLINES: a blank line in matrix.def is skipped, it does not end the table. FEATSPAN: the end of the feature is not found by a search of the remaining input, and the end of the input at a row start is not taken for a row.",
     "C10": "MATRIXLINES as for C08. MAPCOMPOSE (the C06 rule). VERIFYSTRICT also reads counts captured by a closure and `cond.then_some(..).ok_or_else(..)?`.",
-    "C11": "FEATSPAN feature-cut-at-reader-positions also rejects an end found by position/find/split over the remaining input; input-end-at-a-row-start-is-not-a-row: the read that hits the end of the input with no field started and no output (blank lines only) cannot reach the `row too short` error. KIND over the builder's verify step.",
+    "C11": "FEATSPAN feature-cut-at-reader-positions also rejects an end found by position/find/split over the remaining input; input-end-at-a-row-start-is-not-a-row: the read that hits the end of the input with no field started and no output (blank lines only) cannot reach the `row too short` error; terminator-is-cut-only-when-one-was-consumed: per record-ending outcome of csv-core (input empty inside a field / a field returned on empty input / a field that consumed its terminator) the length carries exactly the credit the cut removes. KIND over the builder's verify step.",
     "C09": "MAGIC rejection-cannot-panic: the path from a header mismatch to the error has no unwrap / index of its own.",
     "C14": "KIND over Lexicon::verify, UnkHandler::verify and ConnectorWrapper (the emitted files always compile: ids are compared with the count of their own side).",
     "C17": "FIRSTMATCH-SCAN one scan per node. CONFLINE: rewrite.def / feature.def lines are stripped on both sides. REGEX probes numbers that contain the digit 0.",
